@@ -1,4 +1,4 @@
-//! C17 harness (built from /verif/harness_c17, see its Cargo.toml; the per-program glue under /verif/work/c17 is
+//! C17 harness (crate /verif/harness_c17, own workspace, shared target dir; the per-program glue under /verif/work/c17 is
 //! regenerated from /repo's working tree by tools/c17_gen.py before every build).
 //!
 //!   vh_c17 emit                 one JSON document: for every program (System, Token, Associated Token, every example
@@ -101,6 +101,33 @@ fn enum_probe(width: usize) -> Value {
     }
 }
 
+/// the namespaces an IDL refers to (every `"namespace": "<name>"` of its JSON rendering, minus its own)
+fn referenced_namespaces(d: &IdlDefinition) -> Vec<String> {
+    fn walk(v: &Value, out: &mut Vec<String>) {
+        match v {
+            Value::Object(m) => {
+                for (k, x) in m {
+                    if k == "namespace" {
+                        if let Value::String(s) = x {
+                            out.push(s.clone());
+                        }
+                    }
+                    walk(x, out);
+                }
+            }
+            Value::Array(a) => a.iter().for_each(|x| walk(x, out)),
+            _ => {}
+        }
+    }
+    let mut out = vec![];
+    walk(&serde_json::to_value(d).unwrap(), &mut out);
+    out.extend(d.metadata.required_idl_definitions.keys().cloned());
+    out.sort();
+    out.dedup();
+    out.retain(|n| *n != d.namespace());
+    out
+}
+
 fn emit() {
     let ps = probes();
     let (_, adescs, shapes) = c17_probe();
@@ -122,8 +149,21 @@ fn emit() {
                 o["namespace"] = json!(d.namespace());
                 let compat = verify_idl_definitions_with_mode([d], VerificationMode::Compatibility);
                 o["verify_compat_alone"] = json!(compat.as_ref().err().map(|e| format!("{e}")));
-                // strict: together with the IDLs of the programs it references (every other shipped program is offered)
+                // strict: together with the IDLs of the programs it references; and all programs together
                 let all: Vec<&IdlDefinition> = idls.iter().filter_map(|(_, r)| r.as_ref().ok()).collect();
+                let refs = referenced_namespaces(d);
+                let mut set: Vec<&IdlDefinition> = vec![d];
+                let mut missing = vec![];
+                for r in &refs {
+                    match all.iter().find(|x| x.namespace() == *r) {
+                        Some(x) => set.push(x),
+                        None => missing.push(r.clone()),
+                    }
+                }
+                o["references"] = json!(refs);
+                o["references_missing"] = json!(missing);
+                let strict = verify_idl_definitions_with_mode(set.iter().copied(), VerificationMode::StrictGraph);
+                o["verify_strict_refs"] = json!(strict.as_ref().err().map(|e| format!("{e}")));
                 let strict = verify_idl_definitions_with_mode(all.iter().copied(), VerificationMode::StrictGraph);
                 o["verify_strict_all"] = json!(strict.as_ref().err().map(|e| format!("{e}")));
                 let node: Result<ProgramNode, _> = d.clone().try_into();
